@@ -26,7 +26,7 @@ ASSUMPTIONS = [
 ]
 
 OPS = ["write_a_short", "write_a_long", "rewrite_a_same_size_same_mtime", "append_a", "remove_a", "touch_a", "copy_a_to_b", "write_b",
-       "remove_b", "replace_dir_d_by_a_file", "recreate_a_same_content", "recreate_b_same_content"]
+       "remove_b", "replace_dir_d_by_a_file", "recreate_a_same_content", "recreate_b_same_content", "update_a_in_place_r_plus"]
 CLASSES = ["File:a", "ContentFile:a", "IFile:a", "File:b", "ContentFile:b", "Dir:d", "ContentDir:d", "IDir:d", "FileSet:*"]
 
 
@@ -157,6 +157,12 @@ def _run_ops(root, ops):
                     b.remove()
                     b.write(old, mode="wb")
                     writer = ("File:b", b)
+            elif op == "update_a_in_place_r_plus":
+                if os.path.isfile(a.path):
+                    with a.open("r+") as f:  # update mode: read the old text, then write more behind it
+                        f.read()
+                        f.write("-updated-in-place")
+                    writer = ("File:a", a)
             elif op == "recreate_a_same_content":
                 if os.path.exists(a.path):
                     a.remove()
